@@ -75,15 +75,17 @@ Definition exp_eqb (a b : res (list (list str))) : bool :=
 Definition spec_eqb (a b : sres) : bool :=
   match a, b with Many, Many => true | Words x, Words y => sl_eqb x y | _, _ => false end.
 (* per case: 1 = split differs, 2 = expansion differs, 4 = render differs, 8 = Spec differs, 16 = class twin differs (not compared above the limit: the harness stops early there) *)
-Definition check1 (c : str * bool * list part * res (list (list str)) * sres * bool) : N :=
-  let '(w, flag, tree, ex, sp, skf) := c in
+Definition check1 (c : str * bool * list part * res (list (list str)) * sres * (bool * bool * bool * bool)) : N :=
+  let '(w, flag, tree, ex, sp, (skf, ncf, sgf, fsf)) := c in
   let '(mflag, mtree) := split_braces w in
   (if Bool.eqb mflag flag && word_eqb mtree tree then 0 else 1)
   + (if exp_eqb (expand mtree) ex then 0 else 2)
   + (if str_eqb (render mtree) w && str_eqb (print mtree) (print_lit w) then 0 else 4)
   + (if spec_eqb (spec w) sp then 0 else 8)
-  + (match sp with Many => 0 | _ => if Bool.eqb (skipped_close w) skf then 0 else 16 end).
-Fixpoint mism (i : nat) (cs : list (str * bool * list part * res (list (list str)) * sres * bool)) : list (nat * N) :=
+  + (match sp with Many => 0 | _ =>
+       (if Bool.eqb (skipped_close w) skf then 0 else 16) + (if Bool.eqb (nested_comma_only w) ncf then 0 else 32)
+       + (if Bool.eqb (seq_guard w) sgf then 0 else 64) + (if Bool.eqb (failed_seq_nested w) fsf then 0 else 128) end).
+Fixpoint mism (i : nat) (cs : list (str * bool * list part * res (list (list str)) * sres * (bool * bool * bool * bool))) : list (nat * N) :=
   match cs with [] => []
   | c :: rest => match check1 c with 0 => mism (S i) rest | k => (i, k) :: mism (S i) rest end end.
 """
@@ -149,7 +151,8 @@ def run(ctx):
         for r in part:
             items.append("(%s,%s,%s,%s,%s,%s)" % (coq_bytes(r["word"]), "true" if r["flag"] else "false",
                                                   coq_word(r["tree"]), coq_exp(r), coq_spec(r),
-                                                  "true" if "skippedClose" in (r.get("feat") or "") else "false"))
+                                                  "(%s,%s,%s,%s)" % tuple("true" if k in (r.get("feat") or "") else "false" for k in
+                                                                          ("skippedClose", "nestedComma", "seqGuard", "failedSeqNested"))))
         text = CASE_HDR + "Definition cases := %s.\nDefinition M := Eval vm_compute in mism 0 cases.\nPrint M.\n" % coq_list(items)
         ok, out = ctx.coq_cases("c16_%d_%d_%d" % (ctx.seed, os.getpid(), sh), text, timeout=1800)
         m = re.search(r"M\s*=\s*(\[.*?\])\s*:", out, re.S)
@@ -160,7 +163,7 @@ def run(ctx):
         for (i, k) in re.findall(r"\((\d+)%nat,\s*(\d+)\)", m.group(1)) or re.findall(r"\((\d+),\s*(\d+)\)", m.group(1)):
             r = part[int(i)]
             mism.append({"word": bytes.fromhex(r["word"]).decode("latin1"), "differs": int(k),
-                         "legend": "1 split 2 expand 4 render/print 8 spec 16 class-twin skipped_close", "go_tree": r["tree"], "go_exp_err": r["experr"]})
+                         "legend": "1 split 2 expand 4 render/print 8 spec 16/32/64/128 class twins skipped_close/nested_comma_only/seq_guard/failed_seq_nested", "go_tree": r["tree"], "go_exp_err": r["experr"]})
     ctx.leg("code: SplitBraces/BracesSeq vs Expand/Braces.v, Go spec port vs Coq Spec (vm_compute in kernel)", total, mism)
     ctx.assumptions += [
         "words are single literals (one *syntax.Lit); multi-part words are not modelled",
